@@ -47,6 +47,15 @@ def run(ctx):
         ctx.ob("R20.1", "work-list-is-1-1", ok, "the enumerated work list is a Vec collected element-by-element from `keys.iter()`" if ok else
                "the enumerated work list is collected into %s: entries that share a key component collapse, and positions no longer correspond to `keys`" % (lossy or tys),
                site="%s in %s" % (t.span, main.id))
+        # … and it is enumerated as a whole: a position taken inside a chunk / window / skipped or filtered view is relative to
+        # that view, not to `keys`
+        views = sorted({(x.path or "").rsplit("::", 1)[-1] for _, x in sl.calls} &
+                       {"chunks", "chunks_exact", "rchunks", "windows", "skip", "take", "step_by", "filter", "filter_map", "skip_while", "take_while", "split_at", "rev", "chain", "zip"})
+        ranged = [x for _, x in sl.calls if (x.declared or "").endswith("ops::index::Index::index") and "Range" in " ".join(x.gen_args)]
+        ctx.ob("R20.1", "enumerate-whole-list", not views and not ranged,
+               "positions are taken over the whole work list" if not views and not ranged else
+               "the enumerated sequence is a %s view of the work list: its positions restart per view but are used to index `keys` (entries beyond the first view get another key's content, and some keys are never filled)"
+               % ("/".join(views) or "sub-slice"), site="%s in %s" % (t.span, main.id))
     # positions are used with get_index only on `keys`
     gi = [t for t in main.calls() if (t.path or "").endswith(("IndexMap::get_index", "IndexSet::get_index"))]
     for t in gi:
